@@ -200,6 +200,26 @@ func (sc *Scenario) Build(w *World) error {
 			}
 		}
 		w.Env = append(w.Env, &StatefulSetEnv{NS: ns, STS: AppName})
+	case "DaemonSet":
+		ds := &kruiseappsv1alpha1.DaemonSet{
+			ObjectMeta: metav1.ObjectMeta{Namespace: ns, Name: AppName, Labels: map[string]string{"app": AppName}},
+			Spec: kruiseappsv1alpha1.DaemonSetSpec{
+				Selector: &metav1.LabelSelector{MatchLabels: map[string]string{"app": AppName}},
+				Template: podTemplate("app:v1"),
+				UpdateStrategy: kruiseappsv1alpha1.DaemonSetUpdateStrategy{Type: kruiseappsv1alpha1.RollingUpdateDaemonSetStrategyType,
+					RollingUpdate: &kruiseappsv1alpha1.RollingUpdateDaemonSet{MaxUnavailable: parseIS("1")}},
+			},
+		}
+		if err := w.Raw.Create(ctx, ds); err != nil {
+			return err
+		}
+		rev := RevisionOf(ds.Name, &ds.Spec.Template)
+		for i := 0; i < int(sc.Replicas); i++ {
+			if err := w.Raw.Create(ctx, NewPod(ns, fmt.Sprintf("%s-n%d", ds.Name, i), ds.Spec.Template.Labels, rev, ownerRef(ds, "DaemonSet", kruiseappsv1alpha1.SchemeGroupVersion.String()), true)); err != nil {
+				return err
+			}
+		}
+		w.Env = append(w.Env, &DaemonSetEnv{NS: ns, DS: AppName, Nodes: int(sc.Replicas)})
 	default:
 		return fmt.Errorf("scenario kind %q not supported yet", sc.Kind)
 	}
@@ -329,6 +349,8 @@ func (sc *Scenario) Rollout() *rolloutsv1beta1.Rollout {
 		ro.Spec.WorkloadRef = rolloutsv1beta1.ObjectRef{APIVersion: "apps/v1", Kind: "Deployment", Name: AppName}
 	case "StatefulSet":
 		ro.Spec.WorkloadRef = rolloutsv1beta1.ObjectRef{APIVersion: "apps/v1", Kind: "StatefulSet", Name: AppName}
+	case "DaemonSet":
+		ro.Spec.WorkloadRef = rolloutsv1beta1.ObjectRef{APIVersion: "apps.kruise.io/v1alpha1", Kind: "DaemonSet", Name: AppName}
 	}
 	var trs []rolloutsv1beta1.TrafficRoutingRef
 	traffic := sc.Traffic
@@ -423,6 +445,19 @@ func (w *World) UserSetImage(sc *Scenario, image string) error {
 			}
 			upd.Labels[rolloutsv1beta1.RolloutIDLabel] = "id-" + strings.TrimPrefix(image, "app:")
 		}
+		adm, err := w.AdmitWorkloadUpdate(old, upd)
+		if err != nil {
+			return err
+		}
+		return w.Raw.Update(ctx, adm)
+	}
+	if sc.Kind == "DaemonSet" {
+		old := &kruiseappsv1alpha1.DaemonSet{}
+		if !w.Get(old, sc.ns(), AppName) {
+			return fmt.Errorf("workload gone")
+		}
+		upd := old.DeepCopy()
+		upd.Spec.Template.Spec.Containers[0].Image = image
 		adm, err := w.AdmitWorkloadUpdate(old, upd)
 		if err != nil {
 			return err
